@@ -31,13 +31,13 @@ def kind_value(kind, variant, ident, field):
     if kind == "str":
         if field == "hostname":
             return STRS[variant % len(STRS)](ident)
-        return ["1.5", "high", ""][variant % 3]
+        return ["1.5", "high", "", "nan", "\u0663", "1e400"][(variant * 2 + ident) % 6]
     if kind == "int":
         if field == "port":
             return 20000 + ident
-        return [3, 0, -7][variant % 3]
+        return [3, 0, -7, 10 ** 400, -10 ** 400][(variant * 2 + ident) % 5]
     if kind == "float":
-        return [1.5, 0.0, -2.25][variant % 3]
+        return [1.5, 0.0, -2.25, float("inf"), float("nan"), -0.0][(variant * 2 + ident) % 6]
     if kind == "bool":
         return [True, False, True][variant % 3]
     if kind == "null":
